@@ -3,7 +3,10 @@
 package ffldb
 
 import (
+	"time"
+
 	"github.com/elastos/Elastos.ELA/common"
+	"github.com/elastos/Elastos.ELA/database/internal/treap"
 	"github.com/elastos/Elastos.ELA/zzverif/nd"
 )
 
@@ -161,4 +164,92 @@ func ZZ_C17_transient() {
 	nd.Assert(err == nil && zzSame(got, rawD), "block_after_failed_commit_reads_back")
 	got, err = s.readBlock(&hA, locA)
 	nd.Assert(err == nil && zzSame(got, rawA), "earlier_block_reads_back_after_failed_commit")
+}
+
+// zzCommitTx: a writable transaction over a dbCache whose cached key treaps
+// stand for the persisted metadata (the no-flush branch of dbCache.commitTx is
+// executed for real; the flush to leveldb — batch atomicity — is assumed).
+func zzCommitTx(s *blockStore, cache *dbCache) *transaction {
+	tx := zzTx(s)
+	tx.db.cache = cache
+	tx.snapshot = &dbCacheSnapshot{pendingKeys: cache.cachedKeys, pendingRemove: cache.cachedRemove}
+	return tx
+}
+
+func zzNewCache(s *blockStore) *dbCache {
+	return &dbCache{store: s, maxSize: 1 << 40, flushInterval: 1 << 62, lastFlush: time.Unix(0, 0),
+		cachedKeys: treap.NewImmutable(), cachedRemove: treap.NewImmutable()}
+}
+
+// ZZ_C17_commit: the same crash experiment through the real commit path
+// (transaction.writePendingAndCommit -> blockStore.writeBlock, block index
+// rows, write-cursor row, dbCache.commitTx). Commit 1 stores block A; commit 2
+// stores B and C and either completes or stops at an arbitrary file write.
+// On reopen the write cursor is the one recorded by the LAST COMPLETED commit
+// (read back from the metadata exactly as reconcileDB does); every block of
+// every completed commit must read back byte-for-byte through its index row.
+func ZZ_C17_commit() {
+	fs := zzNewFS()
+	nA := nd.Choose("lenA", 2) + 1
+	nB := nd.Choose("lenB", 2)
+	nC := nd.Choose("lenC", 2) + 1
+	raws := [][]byte{nd.Bytes("A", nA), nd.Bytes("B", nB), nd.Bytes("C", nC)}
+	hashes := []common.Uint256{{0xA}, {0xB}, {0xC}}
+	maxSize := uint32(1 << 20)
+	switch nd.Choose("rollover", 3) {
+	case 1:
+		maxSize = uint32(nA) + 12
+	case 2:
+		maxSize = uint32(nA) + uint32(nB) + 24
+	}
+	s := zzStore(fs, maxSize, 0, 0)
+	cache := zzNewCache(s)
+	tx := zzCommitTx(s, cache)
+	tx.pendingBlockData = []pendingBlock{{hash: &hashes[0], bytes: raws[0]}}
+	nd.Assume(tx.writePendingAndCommit() == nil)
+	committed := 1
+
+	fs.ops = 0
+	fs.failAt = nd.Choose("crashPoint", 9) - 1 // -1: commit 2 completes
+	fs.partial = nd.Choose("partialBytes", 4)
+	tx2 := zzCommitTx(s, cache)
+	tx2.pendingBlockData = []pendingBlock{{hash: &hashes[1], bytes: raws[1]}, {hash: &hashes[2], bytes: raws[2]}}
+	if tx2.writePendingAndCommit() == nil {
+		committed = 3
+		nd.Reach("second_commit_completed")
+	} else {
+		nd.Reach("second_commit_interrupted")
+	}
+
+	// reopen: metadata = the cache's key treap; files = what survived
+	fs.crashed, fs.failAt = false, -1
+	row := cache.cachedKeys.Get(bucketizedKey(metadataBucketID, writeLocKeyName))
+	nd.Assert(row != nil, "write_cursor_row_is_persisted")
+	if row == nil {
+		return
+	}
+	pFile, pOff, err := deserializeWriteRow(row)
+	nd.Assert(err == nil, "write_cursor_row_has_a_valid_checksum")
+	scanFile, scanOff := zzScan(fs)
+	s2 := zzStore(fs, maxSize, scanFile, scanOff)
+	before := scanFile < pFile || (scanFile == pFile && scanOff < pOff)
+	nd.Assert(!before, "files_never_end_before_the_persisted_cursor")
+	if before {
+		return
+	}
+	if scanFile > pFile || (scanFile == pFile && scanOff > pOff) {
+		s2.handleRollback(pFile, pOff)
+	}
+	for i := 0; i < 3; i++ {
+		locRow := cache.cachedKeys.Get(bucketizedKey(blockIdxBucketID, hashes[i][:]))
+		if i < committed {
+			nd.Assert(locRow != nil, "completed_commit_has_an_index_row_for_every_block")
+			if locRow != nil {
+				got, err := s2.readBlock(&hashes[i], deserializeBlockLoc(locRow))
+				nd.Assert(err == nil && zzSame(got, raws[i]), "every_block_of_a_completed_commit_reads_back_after_reopen")
+			}
+		} else {
+			nd.Assert(locRow == nil, "interrupted_commit_leaves_no_index_row")
+		}
+	}
 }
